@@ -599,8 +599,8 @@ impl Scheduler {
                 QueueState::Panicked            => RunAction::Panic,
                 QueueState::Pending             => RunAction::Busy,
                 QueueState::Idle                => { 
-                    core.state = QueueState::Running;
                     if core.queue.len() == 0 {
+                        core.state = QueueState::Running;
                         RunAction::Immediate 
                     } else {
                         RunAction::Busy
